@@ -952,7 +952,21 @@ pub fn g_secret_meta_of(u: &mut U, kind: SecretType) -> SecretMeta {
     if n > 0 {
         let mut tags = HashSet::new();
         for i in 0..n {
-            tags.insert(format!("{}{}", u.string(), i));
+            // the first tag is taken as generated (empty and whitespace-only strings included),
+            // the others get a suffix so that they stay distinct
+            if i == 0 {
+                let t = match u.below(6) {
+                    0 => String::new(),
+                    1 => " ".to_string(),
+                    _ => u.string(),
+                };
+                if t.trim().is_empty() {
+                    u.cls("SecretMeta:tags:blank-tag");
+                }
+                tags.insert(t);
+            } else {
+                tags.insert(format!("{}{}", u.string(), i));
+            }
         }
         if tags.len() >= 2 {
             u.multi_hash = true;
